@@ -36,6 +36,7 @@ TEditCommit == /\ IsEv("EditCommit") /\ ev.err = "" /\ ev.b \in have[ev.r]
 TPush == IsEv("Push") /\ ev.err = "" /\ CPush(ev.r) /\ Observed(ev.r)
 TPushRejected == IsEv("PushRejected") /\ UNCHANGED vars /\ Observed(ev.r)
 TPull == IsEv("Pull") /\ ev.err = "" /\ CPull(ev.r) /\ Observed(ev.r)
+TFetch == IsEv("Fetch") /\ ev.err = "" /\ CFetch(ev.r) /\ Observed(ev.r)
 TRemove == IsEv("Remove") /\ ev.err = "" /\ CRemove(ev.r, ev.b) /\ Observed(ev.r)
 TResolveAll == IsEv("ResolveAll") /\ ev.err = "" /\ CResolveAll(ev.r, ev.n) /\ Observed(ev.r)
 TReopen == IsEv("Reopen") /\ ev.err = "" /\ CReopen(ev.r) /\ Observed(ev.r)
@@ -44,7 +45,7 @@ TIdent == IsEv("MutateIdentity") /\ ev.err = "" /\ UNCHANGED vars /\ Observed(ev
 (* a call that names a bug the repository does not have is refused and changes nothing *)
 TNoSuchBug == /\ l <= Len(Trace) /\ ev.ev \in {"Edit", "EditCommit", "Remove"} /\ l' = l + 1
               /\ ev.err # "" /\ ev.b \notin have[ev.r] /\ UNCHANGED vars /\ Observed(ev.r)
-TraceNext == TNoSuchBug \/ TPushRejected \/ Reset \/ TNew \/ TEdit \/ TCommit \/ TEditCommit \/ TPush \/ TPull \/ TRemove \/ TResolveAll \/ TReopen \/ TIdent
+TraceNext == TNoSuchBug \/ TPushRejected \/ Reset \/ TNew \/ TEdit \/ TCommit \/ TEditCommit \/ TPush \/ TPull \/ TFetch \/ TRemove \/ TResolveAll \/ TReopen \/ TIdent
 TraceSpec == TraceInit /\ [][TraceNext]_tvars
 TraceAccepted == TLCGet("stats").diameter - 1 = Len(Trace)
 =============================================================================
